@@ -4,6 +4,7 @@ CONSTANTS
   DEV_PartialIntersection = TRUE
   DEV_PartialNetwork = FALSE
   DEV_AddNetOnNonEmpty = FALSE
+  DEV_HangingFreesNamedIds = FALSE
   MaxGen = 0
   Universe = {"LA","LB","LC","LD","SA","SB","TA","XA","XB","OS","OD","OP","OE","NA","NB","NC"}
 VIEW View
